@@ -47,7 +47,7 @@ theorem offers_append_notOffer : ∀ (new old : List LogItem), (∀ i ∈ new, N
     | unhandled => simpa [offers] using hr
 
 theorem Off.of_ext {st st' : St} (h : Ext NotOffer st st') : Off st st' [] := by
-  obtain ⟨new, e, p⟩ := h
+  obtain ⟨⟨new, e, p⟩, _⟩ := h
   simp [Off, offWins, e, offers_append_notOffer new st.log p]
 
 theorem Off.say_offer (st : St) (k : Kind) (w : WinTree.Id) (e : Ev) (b : Bool) : Off st (st.say (.offer k w e b)) [w] := by
@@ -221,7 +221,8 @@ theorem DInv.bindings {A : Aff} {t0 : Tree} {held : List WinTree.Id} (hi0 : TInv
           tableOK_all _⟩, h.sim, h.conf.fired hb, h.own⟩
       have o0 : Off st (({ st with binds := st.binds.setIfInBounds bi b.fired } : St).say
           (.call kind win b.idx (entryIndex b) b.entry.ret ev)) [] :=
-        Off.of_ext ((Ext.of_log (st' := { st with binds := _ }) rfl).trans (Ext.say _ trivial))
+        Off.of_ext (Ext.trans (b := { st with binds := st.binds.setIfInBounds bi b.fired })
+          ⟨⟨[], rfl, by simp⟩, BMono.fired hb (by simpa using hg)⟩ (Ext.say _ trivial))
       obtain ⟨d1, o1⟩ := DInv.actions hi0 _ _ _ d0 (h.conf.entry hb) h1
       by_cases hret : b.entry.ret = true
       · simp only [hret, if_true, res_pure, Res.ok.injEq, Prod.mk.injEq] at hr
